@@ -10,6 +10,8 @@ import (
 	"bytes"
 	"context"
 	"fmt"
+	"os"
+	"os/exec"
 	"strings"
 
 	"github.com/hedzr/logg/slog"
@@ -320,4 +322,10 @@ func runC11(r *run) {
 	r.extra["exhaustive"] = true
 	r.extra["max_sequence_length"] = maxLen
 	slog.VerifResetGlobals()
+	// JSON loggers under go test with error values: the records keep the JSON shape (the twin binary, oracle only)
+	if exe := os.Getenv("VERIF_HARNESS"); exe != "" {
+		if err := r.mergeChild(exec.Command(exe+".test", "-test.v", "c11test", fmt.Sprint(r.seed), r.tier)); err != nil {
+			r.violate(violation{What: "the go-test-mode twin of the harness failed: " + err.Error()})
+		}
+	}
 }
